@@ -103,6 +103,33 @@ def call(op, objs, args, entry="method"):
 
     if op in ("from_blocks", "construct", "from_fill_fn", "from_dense"):
         return (construct(op, objs, a),)
+    if op == "construct_shared":
+        # two arrays built from ONE block dictionary (from_blocks and the class constructor): they must not share state
+        # with each other or with the caller's dictionary
+        t = objs[0]
+        sym = a["sym"]
+        klass, need = descriptors.get_class(a["kind"], a["cls"], sym)
+        kw = {"symmetry": sym} if need else {}
+        if a["kind"] == "fermionic":
+            kw["oddpos"] = a.get("oddpos", 3)
+        shared = dict(t.blocks)
+        k1 = klass.from_blocks(shared, t.duals, charge=t.charge, **kw)
+        k2 = klass(indices=t.indices, charge=t.charge, blocks=shared, **kw)
+        return (k1, k2)
+    if op == "builder":
+        # the shipped local-operator builders (no operand)
+        name, sym = a["name"], a["sym"]
+        if name == "number_spinless":
+            return (sr.fermi_number_operator_spinless_local_array(sym),)
+        if name == "number_spinful":
+            return (sr.fermi_number_operator_spinful_local_array(sym),)
+        if name == "spin":
+            return (sr.fermi_spin_operator_local_array(sym),)
+        if name == "hubbard":
+            return (sr.fermi_hubbard_local_array(sym, t=a.get("t", 1), U=a.get("U", 8), mu=a.get("mu", 0),
+                                                 coordinations=tuple(a.get("z", [1, 1]))),)
+        return (sr.fermi_hubbard_spinless_local_array(sym, t=a.get("t", 1), V=a.get("V", 8), mu=a.get("mu", 0),
+                                                      coordinations=tuple(a.get("z", [1, 1]))),)
     if op == "fresh":
         # the call a["call"] = {"op", "args", "entry"} on copies of the operands, in a new interpreter
         import os
